@@ -111,6 +111,11 @@ def _conv_ctor_cases():
                     N, dop = _dopN(e, D)
                     return (D, N), {"derivative_operator": dop, "dealiasing_fraction": _frac(e), "scale": sym.real(e, "b"), "single_channel": sc, "conservative": cons}
                 out.append(Case(f"D={D},single_channel={sc},conservative={cons}", build))
+
+    def build_default(e):   # the documented default fraction (2/3, Orszag's rule): constructed without passing it
+        N, dop = _dopN(e, 1)
+        return (1, N), {"derivative_operator": dop, "scale": sym.real(e, "b")}
+    out.append(Case("D=1,documented default dealiasing fraction", build_default))
     return out
 
 
@@ -329,6 +334,11 @@ def _proj_ctor_cases(kol=False):
                 kw.update(injection_mode=sym.integer(e, "kinj", lo=1), injection_scale=sym.real(e, "gamma"))
             return (D, N), kw
         out.append(Case(f"D={D}", build))
+    if not kol:
+        def build_default(e):   # the documented default fraction (2/3): constructed without passing it
+            N, dop = _dopN(e, 3)
+            return (3, N), {"derivative_operator": dop}
+        out.append(Case("D=3,documented default dealiasing fraction", build_default))
     return out
 
 
